@@ -19,7 +19,7 @@ MAX_CHARS = 4096
 
 def inputs_for(chk, tier):
     inputs = []
-    for fam, k in (("soup", 3 if tier == "quick" else 4), ("graphs", 0), ("shapes", 0)):
+    for fam, k in (("soup", 3 if tier == "quick" else 4), ("graphs", 0), ("ggraphs", 0), ("shapes", 0)):
         r = vlib.tlc("PipelineInputs", "PipelineInputs.cfg", constants={"Family": '"%s"' % fam, "K": k}, xss="1g")
         chk.add_tlc(r)
         inputs += [{"fam": c["fam"], "src": c["src"]} for c in r.records]
